@@ -128,6 +128,11 @@ fn main() {
                         if !thorough && l.crossing_num() > 4 && !(h == 0 && t == 0) && r.chance(2, 3) {
                             continue;
                         }
+                        // thorough: the oracle's cube of a 7-8 crossing diagram costs tens of seconds per (h,t):
+                        // all parameters up to 6 crossings, a rotating third of them above
+                        if thorough && l.crossing_num() > 6 && !(h == 0 && t == 0) && r.chance(2, 3) {
+                            continue;
+                        }
                         if let Some(c) = case_line(l, red, h, t) {
                             let res = guarded(|| run_case(&c, &mut r.fork())).unwrap_or("TOP-PANIC".into());
                             o.case(&c, &res);
